@@ -128,6 +128,34 @@ func (ps *parser) expect(s string) error {
 func (ps *parser) parseImpl() (*Expr, error) {
 	t := ps.peek()
 	if t.kind == "ident" && (t.text == "forall" || t.text == "exists") {
+		return ps.parseQuant()
+	}
+	l, err := ps.parseBin(0)
+	if err != nil {
+		return nil, err
+	}
+	if ps.isOp("==>") {
+		ps.next()
+		r, err := ps.parseImpl()
+		if err != nil {
+			return nil, err
+		}
+		return &Expr{Op: "bin", Name: "==>", Args: []*Expr{l, r}}, nil
+	}
+	if ps.isOp("<==>") {
+		ps.next()
+		r, err := ps.parseImpl()
+		if err != nil {
+			return nil, err
+		}
+		return &Expr{Op: "bin", Name: "<==>", Args: []*Expr{l, r}}, nil
+	}
+	return l, nil
+}
+
+func (ps *parser) parseQuant() (*Expr, error) {
+	t := ps.peek()
+	{
 		ps.next()
 		v := ps.next()
 		if v.kind != "ident" {
@@ -157,27 +185,7 @@ func (ps *parser) parseImpl() (*Expr, error) {
 		}
 		return &Expr{Op: t.text, Var: v.text, Args: []*Expr{lo, hi, body}, Pos: t.pos}, nil
 	}
-	l, err := ps.parseBin(0)
-	if err != nil {
-		return nil, err
-	}
-	if ps.isOp("==>") {
-		ps.next()
-		r, err := ps.parseImpl()
-		if err != nil {
-			return nil, err
-		}
-		return &Expr{Op: "bin", Name: "==>", Args: []*Expr{l, r}}, nil
-	}
-	if ps.isOp("<==>") {
-		ps.next()
-		r, err := ps.parseImpl()
-		if err != nil {
-			return nil, err
-		}
-		return &Expr{Op: "bin", Name: "<==>", Args: []*Expr{l, r}}, nil
-	}
-	return l, nil
+	return nil, fmt.Errorf("quantifier expected")
 }
 
 var binPrec = map[string]int{
@@ -212,6 +220,9 @@ func (ps *parser) parseBin(minPrec int) (*Expr, error) {
 
 func (ps *parser) parseUnary() (*Expr, error) {
 	t := ps.peek()
+	if t.kind == "ident" && (t.text == "forall" || t.text == "exists") && ps.toks[ps.p+1].kind == "ident" {
+		return ps.parseQuant()
+	}
 	if t.kind == "op" && (t.text == "!" || t.text == "-" || t.text == "^") {
 		ps.next()
 		e, err := ps.parseUnary()
